@@ -114,7 +114,8 @@ class Report:
             with open(p, "w") as f:
                 json.dump({"property": self.pid, **v}, f, indent=1)
             lines.append("VIOLATION property=%s replay=%s" % (self.pid, p))
-            lines.append("  rule=%s instance=%s at %s: %s" % (v["rule"], v["instance"], v["where"], v["detail"]))
+            if i < 15:
+                lines.append("  rule=%s instance=%s at %s: %s" % (v["rule"], v["instance"], v["where"], v["detail"]))
             code = 1
         if self.broken_msgs:
             for m in self.broken_msgs:
